@@ -113,6 +113,57 @@ Theorem float_exact_path_is_rounding : forall s f, NumLit.parse_float s = Some f
 Proof. exact NumLitProofs.parse_float_exact_is_rounded. Qed.
 Print Assumptions float_exact_path_is_rounding.
 
+(* ... and that conversion is IEEE 754 binary64 rounding of the decimal value of the text (Flocq: round radix2
+   (FLT_exp (-1074) 53) ZnearestE -- round to nearest, ties to even, subnormals included), with ErrRange exactly when
+   the rounded value reaches 2^1024: for EVERY text on which the conversion does not answer FRSyntax, the text is
+   -? D+ (. D+)? (e [+-]? D+)? and the result is the correctly rounded value of digits * 10^(exp - |frac|).
+   (A statement about real numbers: Print Assumptions lists the axioms of Coq's Reals.) *)
+From Soy Require Proofs.NumLitFlocq.
+Theorem float_literal_correctly_rounded : forall s, NumLit.parse_float_round s <> NumLit.FRSyntax ->
+  exists l esgn, s = NumLitFlocq.nf_text l esgn /\ NumLit.lit_int l <> [] /\
+    NumLitFlocq.nf_digits (NumLit.lit_int l) /\ NumLitFlocq.nf_digits (NumLit.lit_frac l) /\ NumLitFlocq.nf_digits (NumLit.lit_exp l) /\
+    (esgn = [] \/ esgn = [43%N] \/ esgn = [45%N]) /\ (NumLit.lit_eneg l = true -> esgn = [45%N]) /\
+    NumLitFlocq.nf_res_spec (NumLit.lit_neg l) (NumLitFlocq.nf_lit_abs l) (NumLit.parse_float_round s).
+Proof. exact NumLitFlocq.nf_parse_float_correctly_rounded. Qed.
+Print Assumptions float_literal_correctly_rounded.
+
+(* the scanner model sends no float item outside that syntax (a run invariant of the whole state machine:
+   start = pos on entry to lexInsideTag / lexBeginTag / lexNumber, lexNumber entered at a digit or at '-' digit;
+   Proofs/ScanStartInv.v, ScanFloatShape.v): the FRSyntax answer of the conversion is dead for scanner output,
+   in file mode, expression mode and at any base (the nested scanner of a quoted attribute expression) *)
+From Soy Require Proofs.ScanFloatShape Proofs.ScanFloatParse.
+Theorem float_items_of_scanner_syntax : forall uni_letter uni_digit fuel mode s its,
+  lex_items uni_letter uni_digit fuel mode s = Ok its ->
+  forall t, In t its -> t_typ t = pk_itemFloat ->
+  (exists fl, NumLit.split_float (t_val t) = Some fl) /\ NumLit.parse_float_round (t_val t) <> NumLit.FRSyntax.
+Proof.
+  intros ul ud fuel mode s its H t Hin Ht. split.
+  - exact (ScanFloatShape.scan_float_shape_items ul ud fuel mode s its H t Hin Ht).
+  - exact (ScanFloatShape.scan_float_not_syntax_items ul ud fuel mode s its H t Hin Ht).
+Qed.
+Print Assumptions float_items_of_scanner_syntax.
+
+Theorem float_items_of_scanner_syntax_at : forall uni_letter uni_digit base fuel s its,
+  lex_items_at uni_letter uni_digit base fuel s = Ok its ->
+  forall t, In t its -> t_typ t = pk_itemFloat -> NumLit.parse_float_round (t_val t) <> NumLit.FRSyntax.
+Proof. exact ScanFloatShape.scan_float_not_syntax_items_at. Qed.
+Print Assumptions float_items_of_scanner_syntax_at.
+
+(* so newValueNode on a float item of the scanner: NFloat of the binary64 nearest to the decimal value of the
+   item's text, or the "number" error exactly when that rounding reaches 2^1024 -- nothing else *)
+Theorem float_item_value_node : forall (w : N -> pst -> presult node) (lf : nat) (t : tok) (st : pst),
+  t_typ t = pk_itemFloat -> ScanFloatParse.sfp_ok t ->
+  exists l esgn, t_val t = NumLitFlocq.nf_text l esgn /\ NumLit.lit_int l <> [] /\
+    NumLitFlocq.nf_digits (NumLit.lit_int l) /\ NumLitFlocq.nf_digits (NumLit.lit_frac l) /\ NumLitFlocq.nf_digits (NumLit.lit_exp l) /\
+    match new_value_node w lf t st with
+    | POk n st' => st' = st /\ exists f, n = NFloat (t_pos t) f /\
+                   FloatFlocqBase.ff_R f = Raux.cond_Ropp (NumLit.lit_neg l) (NumLitFlocq.nf_round (NumLitFlocq.nf_lit_abs l)) /\
+                   Rdefinitions.Rlt (NumLitFlocq.nf_round (NumLitFlocq.nf_lit_abs l)) (Raux.bpow Zaux.radix2 1024)
+    | r => r = p_errorf c_number st /\ Rdefinitions.Rle (Raux.bpow Zaux.radix2 1024) (NumLitFlocq.nf_round (NumLitFlocq.nf_lit_abs l))
+    end.
+Proof. exact ScanFloatParse.sfp_value_node. Qed.
+Print Assumptions float_item_value_node.
+
 Theorem soy_file_total_composed : forall (uni_letter uni_digit : Z -> bool),
   uni_letter (-1) = false -> uni_digit (-1) = false ->
   forall (unq : bstr -> option bstr) (s : bstr),
